@@ -116,13 +116,16 @@ class Impl(object):
     def apply(self, op):
         """-> (outcome code, printable result).  Effects of a raising call persist, as in Python."""
         if not self.handles_ok(op):
+            self.last_code = 50
             return 50, ''
         try:
             res = self._apply(op)
+            self.last_code = 0
             return 0, (res or '')
         except Exception as ex:  # noqa
             self.last_exc = ex
-            return segcorr.outcome_code(ex), ''
+            self.last_code = segcorr.outcome_code(ex)
+            return self.last_code, ''
 
     def _apply(self, op):
         I = self.I
@@ -130,9 +133,19 @@ class Impl(object):
         if k == 'newseg':
             I.append(Segment(op[2], version=self.v, validation_level=op[1]))
         elif k == 'newmsg':
-            m = Message(op[2], version=self.v, validation_level=op[1])
+            kw = {}
+            if len(op) > 3 and op[3]:
+                f, c, r, e, sc = op[3]
+                kw['encoding_chars'] = {'FIELD': f, 'COMPONENT': c, 'REPETITION': r, 'ESCAPE': e, 'SUBCOMPONENT': sc,
+                                        'SEGMENT': '\r', 'GROUP': '\r'}
+            m = Message(op[2], version=self.v, validation_level=op[1], **kw)
             m.msh.msh_7 = '20200101'          # the constructor stamps the current time
             I.append(m)
+        elif k == 'removebyname':
+            I[op[1]].children.remove_by_name(op[2], op[3])
+        elif k == 'setvaluenone':
+            t = self.chain(op[1], op[2])
+            t.value = None
         elif k == 'addsegment':
             I.append(I[op[1]].add_segment(op[2]))
         elif k == 'addgroup':
@@ -471,9 +484,13 @@ class Gen(object):
         return STRICT if self.lvl == TOLERANT else TOLERANT
 
     # -- one step
+    def pop_pending(self):
+        op = self.pending.pop(0)
+        return op(self) if callable(op) else op
+
     def gen_op(self):
         if self.pending:
-            return self.pending.pop(0)
+            return self.pop_pending()
         op = self.gen_op_()
         rng = self.rng
         # read first, then write through the same chain (or to an element in the middle of it): what the
@@ -487,7 +504,22 @@ class Gen(object):
             else:
                 cut = len(names)
             txt = '2020' if X.validation_level == STRICT else rng.choice(['w', 'v^u', 'q'])
-            self.pending.append(['setattr', x, names[:cut], ['t', txt]])
+            if len(names) == 1 and rng.random() < .55 and isinstance(X, (Segment, Field, Component)):
+                # the read left a traversal placeholder; real repetitions are now created with add_<child>
+                # (which does not consume it) and then addressed from the end
+                nm = names[0]
+                last = lambda g: len(g.impl.I) - 1
+                for val in ('2020', '2021'):
+                    self.pending.append(['addhelper', x, nm])
+                    self.pending.append(lambda g, val=val: (['setvalue', last(g), val]
+                                                            if not isinstance(g.impl.I[last(g)], Segment) else ['lenlist', 0]))
+                k2 = -rng.randint(1, 2)
+                if rng.random() < .6:
+                    self.pending.append(['setindex', x, [nm], k2, ['t', txt]])
+                else:
+                    self.pending.append(['removebyname', x, nm.upper() if rng.random() < .7 else nm, k2])
+            else:
+                self.pending.append(['setattr', x, names[:cut], ['t', txt]])
         return op
 
     def gen_op_(self):
@@ -520,15 +552,15 @@ class Gen(object):
         kind = rng.choices(
             ['setattr', 'setindex', 'setlistindex', 'add', 'new', 'addhelper', 'delattr', 'delindex', 'dellistindex',
              'remove', 'grab', 'grablist', 'read', 'readvalue', 'len', 'lenlist', 'toer7', 'setvaluechain', 'setvalue',
-             'chainset', 'setdatatype', 'setparent', 'setvaluedt'],
+             'chainset', 'setdatatype', 'setparent', 'setvaluedt', 'removebyname', 'setvaluenone'],
             [20, 9, 4, 8, 7, 5, 4, 4, 2,
              3, 7, 4, 2, 5, 2, 1.5, 1, 6, 4,
-             9, 1.5, 1.5, 1.5])[0]
+             9, 1.5, 1.5, 1.5, 2.5, 2])[0]
         rows = self.names_for(X)
         row = rng.choice(rows) if rows else ('FOO_1', None, None)
         # prefer names the element already has children for (collisions are where the bugs are)
         have = [c.name for c in X.children.list if c.name]
-        p_have = .9 if kind in ('grab', 'delindex', 'delattr') else .5
+        p_have = .9 if kind in ('grab', 'delindex', 'delattr', 'removebyname') else .5
         if have and rng.random() < p_have:
             nm = rng.choice(have)
             multi = [n for n in have if have.count(n) >= 2]
@@ -544,7 +576,7 @@ class Gen(object):
             i = rng.randrange(0, n_have)
         else:
             i = rng.choice([n_have, n_have, n_have + 1, 0])
-        if kind in ('setindex', 'delindex', 'grab') and n_have and rng.random() < .3:
+        if kind in ('setindex', 'delindex', 'grab', 'removebyname') and n_have and rng.random() < .3:
             # Python's negative indexes: -1 is the last repetition; one beyond the first is absent
             i = -rng.randint(1, n_have + 1)
         if kind == 'setindex' and n_have < 4 and rng.random() < .35:
@@ -595,6 +627,8 @@ class Gen(object):
             return ['delattr', x, [name]]
         if kind == 'delindex':
             return ['delindex', x, [name], i]
+        if kind == 'removebyname':
+            return ['removebyname', x, row[0] if rng.random() < .7 else name, i]
         if kind == 'dellistindex':
             n = len(X.children)
             return ['dellistindex', x, rng.randrange(0, n) if n and rng.random() < .85 else n]
@@ -646,6 +680,8 @@ class Gen(object):
         cur_row = row
         depth = d
         nlinks = rng.choice([1, 1, 2, 2, 3]) if kind != 'chainset' else rng.choice([2, 2, 3])
+        if kind == 'setvaluenone':
+            nlinks = 3 - d if d < 3 else 1        # aim at a subcomponent: x.field.component.subcomponent.value = None
         # descend through the structure of the references (no live elements needed)
         while len(names) < nlinks and depth < 2 and cur_row[1] is not None:
             ref = cur_row[1]
@@ -681,6 +717,8 @@ class Gen(object):
             return ['readvalue', x, names]
         if kind == 'setvaluechain':
             return ['setvaluechain', x, names, self.text_for(cur_row, min(depth, 2), X.validation_level)]
+        if kind == 'setvaluenone':
+            return ['setvaluenone', x, names]
         # chainset
         if len(names) < 2:
             return ['setattr', x, [name], self.value_for(X, row)]
@@ -722,6 +760,22 @@ class MsgGen(object):
         self.codes = []
         self.pending = []
         self.struct = rng.choice(self.STRUCTS)
+        # a third of the histories use a message with its own encoding characters (field, component,
+        # repetition, escape, subcomponent)
+        self.ecs = rng.choice([None, None, '#$*!@', '#$*!@', ';:+?%'])
+        if self.ecs:
+            self.impl.ec = None          # every element is encoded with the delimiters of its own message
+
+    def pop_pending(self):
+        op = self.pending.pop(0)
+        return op(self) if callable(op) else op
+
+    def delim(self, text):
+        """rewrite a text written with the default delimiters into the delimiters of this history"""
+        if not self.ecs:
+            return text
+        f, c, r, e, sc = self.ecs
+        return text.translate({ord('|'): f, ord('^'): c, ord('~'): r, ord('\\'): e, ord('&'): sc})
 
     def rows(self, x):
         sbn = x.__dict__.get('structure_by_name')
@@ -732,7 +786,9 @@ class MsgGen(object):
         return out
 
     def seg_text(self, name, n):
-        return '%s|%d' % (name, n) if name != 'MSH' else None
+        if name == 'MSH':
+            return None
+        return self.delim(self.rng.choice(['%s|%d', '%s|%d||x^y', '%s|%d|a&b^c']) % (name, n))
 
     def group_text(self, x, gname, gref):
         """ER7 of a few leading segments of a group"""
@@ -740,19 +796,19 @@ class MsgGen(object):
         segs = []
         for row in gref[1][:3]:
             if row[3] == 'SEG' and rng.random() < .8:
-                segs.append('%s|%d' % (row[0], rng.randint(1, 9)))
+                segs.append(self.delim('%s|%d' % (row[0], rng.randint(1, 9))))
         if not segs:
-            segs = ['%s|1' % gref[1][0][0]] if gref[1][0][3] == 'SEG' else []
+            segs = [self.delim('%s|1' % gref[1][0][0])] if gref[1][0][3] == 'SEG' else []
         return '\r'.join(segs)
 
     def gen_op(self):
         if self.pending:
-            return self.pending.pop(0)
+            return self.pop_pending()
         rng = self.rng
         I = self.impl.I
         msgs = [i for i, y in enumerate(I) if isinstance(y, Message)]
         if not msgs or (len(msgs) < 2 and rng.random() < .25):
-            return ['newmsg', self.lvl, self.struct]
+            return ['newmsg', self.lvl, self.struct, self.ecs]
         tops = [i for i, y in enumerate(I) if isinstance(y, (Message, Group))]
         x = rng.choice(tops) if rng.random() < .3 else rng.choice(msgs)
         X = I[x]
@@ -771,8 +827,27 @@ class MsgGen(object):
             i = -rng.randint(1, n_have + 1)
         text = self.seg_text(name, rng.randint(1, 9)) if cls == 'Segment' else self.group_text(X, name, ref)
         kind = rng.choices(['set', 'setidx', 'addhelper', 'del', 'delidx', 'copy', 'setel', 'chain', 'readchain', 'grab',
-                            'len', 'wrong'], [16, 8, 7, 5, 4, 7, 4, 10, 10, 5, 3, 3])[0]
+                            'len', 'wrong', 'value', 'placeholder', 'rmname'],
+                           [16, 8, 7, 5, 4, 7, 4, 10, 10, 5, 3, 3, 9, 6, 3])[0]
         nl = name.lower()
+        if kind == 'value' and text:
+            # parent.child.value = text: replaces the content of the first repetition, or appends when absent
+            return ['setvaluechain', x, [nl], text]
+        if kind == 'rmname':
+            return ['removebyname', x, name, i]
+        if kind == 'placeholder' and cls == 'Segment':
+            # read the name while no such child exists (leaves a traversal placeholder), create repetitions with
+            # add_segment (which does not consume it), then address one from the end
+            last = lambda g: len(g.impl.I) - 1
+            for n in (1, 2):
+                self.pending.append(['addsegment', x, name])
+                self.pending.append(lambda g, n=n: ['setattr', last(g), ['%s_1' % nl], ['t', str(n)]])
+            k2 = -rng.randint(1, 2)
+            if rng.random() < .6:
+                self.pending.append(['setindex', x, [nl], k2, ['t', self.delim('%s|3' % name)]])
+            else:
+                self.pending.append(['removebyname', x, name, k2])
+            return ['readvalue', x, [nl, '%s_1' % nl]]
         if kind == 'set' and text:
             return ['setattr', x, [nl], ['t', text]]
         if kind == 'setidx' and text:
@@ -797,7 +872,7 @@ class MsgGen(object):
         if kind == 'len':
             return ['len', x, [nl]]
         if kind == 'wrong' and text:
-            return ['setattr', x, [nl], ['t', 'EVN|9']]
+            return ['setattr', x, [nl], ['t', self.delim('EVN|9')]]
         # chains below a segment or a group: read lazily, write, or read and then write (to the end of the
         # chain or to an element in the middle of it)
         if cls == 'Segment':
@@ -808,7 +883,9 @@ class MsgGen(object):
                 return ['len', x, [nl]]
             sname = rng.choice(inner[:3])[0].lower()
             names = [nl, sname, '%s_%d' % (sname, rng.choice([1, 2, 3]))]
-        txt = '2020' if self.lvl == STRICT else rng.choice(['w', 'EVERYMAN^ADAM', '7'])
+        txt = '2020' if self.lvl == STRICT else self.delim(rng.choice(['w', 'EVERYMAN^ADAM', '7']))
+        if kind == 'chain' and rng.random() < .4:
+            return ['setvaluechain', x, names, txt]
         if kind == 'readchain':
             cut = rng.randint(2, len(names)) if len(names) > 2 else len(names)
             if rng.random() < .7:
@@ -816,7 +893,7 @@ class MsgGen(object):
                     self.pending.append(['setattr', x, names[:cut], ['t', txt]])
                 else:
                     # assign a whole segment to the intermediate link
-                    self.pending.append(['setattr', x, names[:cut], ['t', '%s|3' % names[cut - 1].upper()]])
+                    self.pending.append(['setattr', x, names[:cut], ['t', self.delim('%s|3' % names[cut - 1].upper())]])
             return ['readvalue', x, names]
         return ['setattr', x, names, ['t', txt]]
 
@@ -841,6 +918,8 @@ class MsgGen(object):
 def run_message_history(version, ops, hook=None):
     """replay of a message-level history (implementation only)"""
     impl = Impl(version)
+    if any(o[0] == 'newmsg' and len(o) > 3 and o[3] for o in ops):
+        impl.ec = None
     for k, op in enumerate(ops):
         if hook:
             hook(impl, k, op, 'before', None)
@@ -946,6 +1025,10 @@ def coq_op(op):
         return 'OSetDatatype %s %s' % (coq_nat(op[1]), coq_ostr(op[2]))
     if k == 'setparent':
         return 'OSetParent %s %s' % (coq_nat(op[1]), coq_opt(op[2], coq_nat))
+    if k == 'removebyname':
+        return 'ORemoveByName %s %s %s' % (coq_nat(op[1]), coq_str(op[2]), coq_z(op[3]))
+    if k == 'setvaluenone':
+        return 'OSetValueNone %s %s' % (coq_nat(op[1]), coq_names(op[2]))
     raise ValueError(op)
 
 
